@@ -7,7 +7,7 @@ open Llir Llir.Types Llir.Typing Llir.Gep
 def parseKind (s : String) : Option Kind :=
   let parts := s.splitOn ":"
   let arg := parts.getD 1 ""
-  let idx : List Nat := if arg == "" then [] else (arg.splitOn ".").map String.toNat!
+  let idx : List Nat := if arg == "" || !(arg.all fun c => c.isDigit || c == '.') then [] else (arg.splitOn ".").map String.toNat!
   match parts.head! with
   | "fneg" => some .fneg
   | "add" => some .binop | "fadd" => some .binop | "xor" => some .binop
